@@ -685,7 +685,7 @@ def IbcGood (r : Flow × St) : Prop :=
   2 ∈ r.2.failed → r.1 = .ret true ∧ r.2.outer = ibcDesignated
 
 theorem ibc_fail (env : Env) (hp : NoPanic env)
-    (hsync : env.cond "RecvPacket: ack != nil" 0 = true) (hsync' : env.cond "RecvPacket: ack == nil" 0 = false)
+    (hsync' : env.cond "RecvPacket: ack == nil" 0 = false)
     (hw : env.ok "k.ChannelKeeper.WriteAcknowledgement" 0 = true) :
     IbcGood (run env recvPacketProg) := by
   have hp' := fun n i => hp n i
@@ -875,7 +875,7 @@ def IbcOutcome (env : Env) (r : Flow × St) : Prop :=
      (¬ (ibcAppFails env ∨ ibcHookFails env) ∧ r.2.outer = ibcSuccess env ∧ 2 ∉ r.2.failed))
 
 theorem ibc_total (env : Env) (hp : NoPanic env) (hr : ibcReached env)
-    (hsync : env.cond "RecvPacket: ack != nil" 0 = true) (hsync' : env.cond "RecvPacket: ack == nil" 0 = false)
+    (hsync' : env.cond "RecvPacket: ack == nil" 0 = false)
     (hw : env.ok "k.ChannelKeeper.WriteAcknowledgement" 0 = true) :
     IbcOutcome env (run env recvPacketProg) := by
   have hp' := fun n i => hp n i
@@ -893,7 +893,7 @@ non-FX coin for a hex receiver with an ibc-call memo -/
 def envOk : Env :=
   { ok := fun _ _ => true, panics := fun _ _ => false, evm := fun _ _ => .ok, iters := fun _ _ => 3, stride := 10,
     cond := fun t _ => t ∈ ["EndBlocker: passes", "EndBlocker: passes #2", "Run: has", "ExecuteClaim: found", "ExecuteClaim: externalClaim.(type) is *types.MsgBridgeCallClaim",
-      "Keeper.BridgeCallEvm: k.evmKeeper.IsContract(ctx, to)", "RecvPacket: ok", "RecvPacket: ack != nil",
+      "Keeper.BridgeCallEvm: k.evmKeeper.IsContract(ctx, to)", "RecvPacket: ok",
       "Keeper.OnRecvPacket: ok", "Keeper.OnRecvPacket: isEvmAddr",
       "Keeper.OnRecvPacket: receiveCoin.GetDenom() != fxtypes.DefaultDenom", "Keeper.OnRecvPacket: len(data.Memo) > 0",
       "Keeper.HandlerIbcCall: mp.(type) is *types.IbcCallEvmPacket"] }
